@@ -16,6 +16,8 @@ import (
 
 	"github.com/Flowpack/prunner/definition"
 	"github.com/Flowpack/prunner/store"
+
+	"verif/internal/pfield"
 )
 
 // PreJob is a job that was in the store before the runner started (left by an earlier run).
@@ -60,7 +62,10 @@ func genPreload(t *rapid.T, defs *definition.PipelinesDef, inner store.DataStore
 		case "failed":
 			e := "exit status 1"
 			pj.Completed, pj.Start, pj.End = true, &start, &end
-			pj.Tasks[0].Status, pj.Tasks[0].Errored, pj.Tasks[0].Error, pj.Tasks[0].ExitCode = "error", true, &e, 1
+			pj.Tasks[0].Status = "error"
+			pfield.Set(&pj.Tasks[0], "Errored", true)
+			pfield.Set(&pj.Tasks[0], "Error", &e)
+			pfield.Set(&pj.Tasks[0], "ExitCode", int16(1))
 		case "running":
 			pj.Start = &start
 			pj.Tasks[0].Status = "running"
@@ -173,6 +178,7 @@ func (m *Machine) ActSaveRetention(t *rapid.T) {
 				removed++
 				if !j.Terminal {
 					m.fail("C12", "a save removed job %s of pipeline %s which is waiting or running", label(j.ID), p)
+					m.fail("C03", "accepted job %s of pipeline %s was removed by a save while it was waiting or running: it neither starts nor is reported canceled", label(j.ID), p)
 				}
 				if def.RetentionCount == 0 && def.RetentionPeriod == 0 {
 					m.fail("C12", "a save removed job %s of pipeline %s which has no retention settings", label(j.ID), p)
@@ -235,10 +241,15 @@ func (m *Machine) ActSaveRetention(t *rapid.T) {
 		}
 	}
 	// API == store == HTTP
-	data, err := m.mem.Inner.Load()
-	if err != nil {
-		m.fail("C12", "the store does not load after a save: %v", err)
-		return
+	var data *store.PersistedData
+	if m.mem.Inner != nil {
+		var err error
+		if data, err = m.mem.Inner.Load(); err != nil {
+			m.fail("C12", "the store does not load after a save: %v", err)
+			return
+		}
+	} else if data, _ = m.mem.Get(); data == nil {
+		data = &store.PersistedData{}
 	}
 	inStore := map[uuid.UUID]bool{}
 	for _, j := range data.Jobs {
